@@ -22,9 +22,10 @@ Definition nfv (n : string) (v : Q) : string * Q := (n, v).
 Definition sroadm (b : list string) : startk := StartRoadm b.
 Definition eroadm (p : list string) : endk := EndRoadm p.
 
-(* one OMS: launched reference power, ingress, egress, elements *)
-Definition oms (bmin bmax p0 : Q) (s : startk) (e : endk) (l : list relem)
-  : Q * Q * Q * startk * endk * list relem := (bmin, bmax, p0, s, e, l).
+(* one OMS: design band, total reference power of the band (pref_ch + 10 log10 nb_channels), launched reference power,
+   ingress, egress, elements *)
+Definition oms (bmin bmax pref_total p0 : Q) (s : startk) (e : endk) (l : list relem)
+  : Q * Q * Q * Q * startk * endk * list relem := (bmin, bmax, pref_total, p0, s, e, l).
 
 (* ---------- rendering ---------- *)
 Fixpoint fibers_s (l : list elem) : list string :=
@@ -37,9 +38,9 @@ Definition damp_s (d : damp) : string :=
   join "|" [d_variety d; q_s (d_gain d); oq_s (d_delta_p d); q_s (d_dp d); q_s (d_ovoa d); q_s (d_ivoa d);
             q_s (d_node_loss d); q_s (d_crit d)].
 
-Definition run_oms (c : span_cfg) (lib : list amp) (pref_ch pref_total : Q)
-                   (o : Q * Q * Q * startk * endk * list relem) : string :=
-  let '(bmin, bmax, p0, s, e, raw) := o in
+Definition run_oms (c : span_cfg) (lib : list amp) (pref_ch : Q)
+                   (o : Q * Q * Q * Q * startk * endk * list relem) : string :=
+  let '(bmin, bmax, pref_total, p0, s, e, raw) := o in
   let ch := prep c raw in
   append (join ";" (fibers_s ch))
     (append "#"
@@ -48,6 +49,6 @@ Definition run_oms (c : span_cfg) (lib : list amp) (pref_ch pref_total : Q)
         | Ok ds => append (join ";" (map damp_s ds)) (append "#" (join ";" (map q_s (walk p0 ch ds))))
         end)).
 
-Definition run_net (c : span_cfg) (lib : list amp) (pref_ch pref_total : Q)
-                   (l : list (Q * Q * Q * startk * endk * list relem)) : string :=
-  join "~" (map (run_oms c lib pref_ch pref_total) l).
+Definition run_net (c : span_cfg) (lib : list amp) (pref_ch : Q)
+                   (l : list (Q * Q * Q * Q * startk * endk * list relem)) : string :=
+  join "~" (map (run_oms c lib pref_ch) l).
